@@ -17,3 +17,14 @@ package mapper
 // is exactly the column's native type.
 //@ func NewInfo
 //@ at update fields requires expType == field.Type
+
+// NewCondition (C08): column lookup by field pointer, validation and native->ovs
+// conversion are reflection; the produced condition is a pure function of the
+// model, the field pointer, the function and the value.
+//@ ghost func condCol(interface{}, interface{}) string
+//@ ghost func condVal(interface{}, interface{}, interface{}) interface{}
+//@ func (Mapper).NewCondition
+//@ trusted "ColumnByPtr / ValidateCondition / NativeToOvs are reflection over the model and the schema; reads only"
+//@ modifies nothing
+//@ ensures_ok result0 != nil && fresh(result0) && result0.Column == condCol(data.Obj, field) && result0.Function == function && result0.Value == condVal(data.Obj, field, value)
+
